@@ -279,6 +279,9 @@ type vfC17amH struct {
 	done       []*vfC17amUpdate // completed and not yet digested by the monitors
 	natClosed  int
 	probes     []string
+	privProbes []string
+	strayProbes []string
+	lastDirect map[string]bool // DirectAddrs() at the last look (the tracker is told at every change)
 	heldTrig   bool
 	relaySent  [][]string // accepted by the manager's subscription, in order
 	reachSent  []string
@@ -566,6 +569,15 @@ func (c *vfC17amClient) GetReachability(_ context.Context, reqs []autonatv2.Requ
 	defer h.mu.Unlock()
 	n := h.u.name(reqs[0].Addr)
 	h.probes = append(h.probes, n)
+	for _, rq := range reqs {
+		x := h.u.name(rq.Addr)
+		if !vfC17amPub[x] {
+			h.privProbes = append(h.privProbes, x)
+		}
+		if h.lastDirect != nil && !h.lastDirect[x] {
+			h.strayProbes = append(h.strayProbes, x)
+		}
+	}
 	rch := network.ReachabilityPublic
 	if h.truth[n] == "priv" {
 		rch = network.ReachabilityPrivate
@@ -777,6 +789,9 @@ func (h *vfC17amH) query() (addrs, direct, r, u, k, hp []string, dup string) {
 	if hp, d = h.u.names(p); d {
 		dup += " HolePunchAddrs"
 	}
+	h.mu.Lock()
+	h.lastDirect = vfC17amSet(direct)
+	h.mu.Unlock()
 	return
 }
 
@@ -1395,7 +1410,6 @@ func vfC17amWalk(t *testing.T, res *vfh.Result, cfg vfC17amCfg, w vfh.Walk, vari
 				case "reachtrig":
 					if !h.heldTrig {
 						mism("L2:tracker-signal", "the model takes the tracker's signal, the real tracker has not signalled", nil, nil)
-						aborted = true
 					}
 					h.heldTrig = false
 					select {
@@ -1571,8 +1585,8 @@ func vfC17amWalk(t *testing.T, res *vfh.Result, cfg vfC17amCfg, w vfh.Walk, vari
 					}{{"reachable", want.TrkR, tr}, {"unreachable", want.TrkU, tu}, {"unknown", want.TrkK, tk}} {
 						g, _ := h.u.names(x.g)
 						if ws := vfC17amSortedCopy(x.w); !vfC17amEq(ws, g) {
+							// noted, the walk goes on: what the manager then reports is checked against the statement
 							mism("L2:tracker", fmt.Sprintf("after %s: the tracker's %s set %v, model %v", op.Name(), x.n, g, ws), ws, g)
-							aborted = true
 						}
 					}
 				}
@@ -1661,7 +1675,14 @@ func vfC17amWalk(t *testing.T, res *vfh.Result, cfg vfC17amCfg, w vfh.Walk, vari
 		h.mu.Lock()
 		late := h.readsAfterClose
 		probes := len(h.probes)
+		priv := h.privProbes
 		h.mu.Unlock()
+		if len(h.strayProbes) > 0 {
+			rep("am-probe-for-address-not-advertised", fmt.Sprintf("the autonat client was asked about %v, not direct addresses of the host at that time", h.strayProbes))
+		}
+		if len(priv) > 0 {
+			rep("am-probe-for-non-public-address", fmt.Sprintf("the autonat client was asked about non-public addresses %v", priv))
+		}
 		if late > 0 {
 			rep("am-active-after-close", fmt.Sprintf("%d stub reads after Close had returned", late))
 		}
